@@ -355,7 +355,11 @@ class Ctx:
             "notes": self.notes,
         }
         (VERIF / "evidence").mkdir(exist_ok=True)
-        if self.tier != "replay":  # a replay must not overwrite the evidence of the last real run
+        if str(REPO) != "/repo":
+            # run against a private (e.g. mutated) copy: never overwrite the evidence of the real tree
+            (BUILD / "evidence_alt").mkdir(parents=True, exist_ok=True)
+            (BUILD / "evidence_alt" / f"{self.prop}.json").write_text(json.dumps(ev, indent=1, default=str))
+        elif self.tier != "replay":  # a replay must not overwrite the evidence of the last real run
             (VERIF / "evidence" / f"{self.prop}.json").write_text(json.dumps(ev, indent=1, default=str))
         for line in self.known_lines:
             print(line)
